@@ -45,6 +45,8 @@ def string_axioms():
     ax.append(z3.ForAll([a], z3.Implies(slen(a) == 0, a == sempty), patterns=[slen(a)]))
     ax.append(slen(sempty) == 0)
     ax.append(z3.ForAll([a, b], slen(sconcat(a, b)) == slen(a) + slen(b), patterns=[sconcat(a, b)]))
+    ax.append(z3.ForAll([a], sconcat(sempty, a) == a, patterns=[sconcat(sempty, a)]))
+    ax.append(z3.ForAll([a], sconcat(a, sempty) == a, patterns=[sconcat(a, sempty)]))
     ax.append(z3.ForAll([a, b, i], sat(sconcat(a, b), i) == z3.If(i < slen(a), sat(a, i), sat(b, i - slen(a))),
                         patterns=[sat(sconcat(a, b), i)]))
     ax.append(z3.ForAll([a, lo, hi], z3.Implies(z3.And(0 <= lo, lo <= hi, hi <= slen(a)), slen(sslice(a, lo, hi)) == hi - lo),
@@ -89,8 +91,15 @@ def str_lit(s):
     return _lit_cache[s]
 
 
+_lit_facts_memo = [0, []]
+
+
 def lit_facts():
+    if _lit_facts_memo[0] == len(_lit_cache):
+        return _lit_facts_memo[1]
     out = []
+    _lit_facts_memo[0] = len(_lit_cache)
+    _lit_facts_memo[1] = out
     for s, t in _lit_cache.items():
         out.append(slen(t) == len(s))
         for k, ch in enumerate(s):
@@ -99,6 +108,10 @@ def lit_facts():
 
 
 # ---------------------------------------------------------------- types
+class TypeMismatch(Exception):
+    pass
+
+
 class Ty:
     def comps(self):            # list of z3 sorts
         raise NotImplementedError
@@ -178,7 +191,12 @@ class TExc(Ty):
     def comps(self): return [Str]
 
 
-INT, BOOL, REAL, STR, NONE = TInt(), TBool(), TReal(), TStr(), TNone()
+class TAny(Ty):
+    """contract-level wildcard: the parameter keeps whatever type the argument has"""
+    def comps(self): raise TypeMismatch('Any has no components')
+
+
+INT, BOOL, REAL, STR, NONE, ANY = TInt(), TBool(), TReal(), TStr(), TNone(), TAny()
 
 
 def is_ref(ty):
@@ -231,13 +249,9 @@ def default_term(sort):
     return z3.K(sort.domain(), default_term(sort.range()))
 
 
-class TypeMismatch(Exception):
-    pass
-
-
 def coerce(v, ty):
     """Convert value `v` to type `ty` (widening only)."""
-    if v.ty == ty:
+    if v.ty == ty or isinstance(ty, TAny):
         return v
     if isinstance(ty, TOpt):
         if isinstance(v.ty, TNone):
